@@ -9,7 +9,7 @@ import (
 
 func init() {
 	register(&Rule{Name: "numeric.helpers", Floor: 8,
-		Doc: "the small numeric helpers compute what the spec's do, judged on normal forms and not on spelling: integer_squareroot special-cases UINT64_MAX before forming x+1 and then runs the Newton iteration (start x=n, y=(x+1)/2; while y<x: x, y = y, (y+n/y)/2) — the loop body is read symbolically, so the order and splitting of its assignments do not matter; NextPowerOfTwo returns, read symbolically, the decrement smeared by all six shift widths plus one; IsPowerOfTwo is n>0 && n&(n-1)==0; VerifyMerkleBranch folds exactly `depth` siblings, bit i of the index choosing sibling-left vs sibling-right, and compares with the root; the overflow tests of TimeAtSlot / EpochStartSlot / CheckSlotSpan refuse (error) on the spec's side of the spec's boundary",
+		Doc: "the small numeric helpers compute what the spec's do, judged on normal forms and not on spelling: integer_squareroot special-cases UINT64_MAX before forming x+1 and then runs the Newton iteration (start x=n, y=(x+1)/2; while y<x: x, y = y, (y+n/y)/2) — the loop body is read symbolically, so the order and splitting of its assignments do not matter, also when the loop is rotated to its exit test (`for { …; if y >= x { return x }; … }`); NextPowerOfTwo returns, read symbolically, the decrement smeared by all six shift widths plus one; IsPowerOfTwo is n>0 && n&(n-1)==0; VerifyMerkleBranch folds exactly `depth` siblings, bit i of the index choosing sibling-left vs sibling-right (hashed through append or a two-argument pairing helper; the bit test may sit in a flag), and compares with the root; the overflow tests of TimeAtSlot / EpochStartSlot / CheckSlotSpan refuse (error) on the spec's side of the spec's boundary",
 		Run: ruleNumericHelpers})
 }
 
@@ -37,6 +37,7 @@ func ruleNumericHelpers(c *Ctx) {
 			n := polyAtom(param.Name)
 			maxP := polyAtom("const18446744073709551615")
 			wantCut := canonCut(polyAdd(n, maxP, -1), token.EQL)
+			wantCutOrd := canonCut(polyAdd(n, maxP, -1), token.GEQ)
 			isSqrtMax := func(b *ast.BlockStmt) bool {
 				if b == nil || len(b.List) != 1 {
 					return false
@@ -68,10 +69,18 @@ func ruleNumericHelpers(c *Ctx) {
 					continue
 				}
 				cut, p, op := condCutOf(info, is.Cond, nil)
-				if cut != wantCut {
+				side := cutSide(p, op)
+				if cut == wantCutOrd && cut != wantCut {
+					// n >= MAX (or its negation n < MAX) over 64 unsigned bits is n == MAX (n != MAX)
+					if side == cutSide(polyAdd(n, maxP, -1), token.GEQ) {
+						side = "eq"
+					} else {
+						side = "ne"
+					}
+				} else if cut != wantCut {
 					continue
 				}
-				switch cutSide(p, op) {
+				switch side {
 				case "eq":
 					guard = isSqrtMax(is.Body)
 				case "ne":
@@ -121,12 +130,17 @@ func ruleNumericHelpers(c *Ctx) {
 			}
 			// `for { A; if C { return r }; B }` is `A; for !C { B; A }; return r`: the loop rotated to its exit test
 			loop := loop
+			viaBreak := false
 			if loop.Cond == nil {
 				k := -1
 				for i, st := range loop.Body.List {
 					if is, ok := st.(*ast.IfStmt); ok && is.Init == nil && is.Else == nil && len(is.Body.List) == 1 {
 						if r, ok := is.Body.List[0].(*ast.ReturnStmt); ok && len(r.Results) == 1 && k < 0 {
 							k = i
+						}
+						// `if C { break }` with the return after the loop: the same exit
+						if br, ok := is.Body.List[0].(*ast.BranchStmt); ok && br.Tok == token.BREAK && br.Label == nil && k < 0 && len(post) > 0 {
+							k, viaBreak = i, true
 						}
 					}
 				}
@@ -139,7 +153,9 @@ func ruleNumericHelpers(c *Ctx) {
 				info.Types[notC] = info.Types[exit.Cond]
 				rot := &ast.ForStmt{For: loop.For, Cond: notC, Body: &ast.BlockStmt{Lbrace: loop.Body.Lbrace, List: append(append([]ast.Stmt{}, after...), before...), Rbrace: loop.Body.Rbrace}}
 				pre = append(append([]ast.Stmt{}, pre...), before...)
-				post = []ast.Stmt{exit.Body.List[0]}
+				if !viaBreak {
+					post = []ast.Stmt{exit.Body.List[0]}
+				}
 				loop = rot
 			}
 			if len(post) == 0 {
@@ -359,13 +375,15 @@ func ruleNumericHelpers(c *Ctx) {
 						is = x
 					}
 				}
-				if is == nil || is.Else == nil || iv == nil {
+				if is == nil || iv == nil {
 					if iv != nil {
-						probs = append(probs, "no left/right selection")
+						unread = append(unread, "no left/right selection by an if in the loop")
 					}
 				} else {
 					// the condition as a function of bit i of the index
 					bitAtom := polyBitOp(token.AND, polyConst(1), polyAtom("shr("+index.Name()+","+iv.Name()+")"))
+					// index & (1 << i): zero exactly when the bit is clear (decides tests against zero only)
+					maskAtom := polyBitOp(token.AND, polyAtom(index.Name()), polyAtom("shl(1,"+iv.Name()+")"))
 					// (a flag defined in the if's own init, or once before it, is read as its definition)
 					condE := is.Cond
 					neg := false
@@ -400,6 +418,10 @@ func ruleNumericHelpers(c *Ctx) {
 							if a == "" {
 								continue
 							}
+							if a == maskAtom.String() && p[""] == 0 {
+								coef, has = cf, true
+								continue
+							}
 							if a != bitAtom.String() {
 								return false, false
 							}
@@ -427,46 +449,108 @@ func ruleNumericHelpers(c *Ctx) {
 					}
 					h1, ok1 := holds(1)
 					h0, ok0 := holds(0)
-					order := func(b ast.Stmt) string {
-						blk, _ := b.(*ast.BlockStmt)
-						if blk == nil || len(blk.List) != 1 {
+					// what is hashed, left and right, when the selecting condition holds / does not hold: the loop body run
+					// symbolically (plain and tuple assignments between the folded value, the branch element of this level
+					// and locals; the selecting if taken on the assumed side), up to the store of a two-operand hash call
+					// into the folded value
+					order := func(assume bool) string {
+						env := map[types.Object]string{}
+						var kind func(e ast.Expr) string
+						kind = func(e ast.Expr) string {
+							switch x := ast.Unparen(e).(type) {
+							case *ast.SliceExpr:
+								return kind(x.X)
+							case *ast.UnaryExpr:
+								if x.Op == token.AND {
+									return kind(x.X)
+								}
+							case *ast.StarExpr:
+								return kind(x.X)
+							case *ast.Ident:
+								o := info.ObjectOf(x)
+								if k, ok := env[o]; ok {
+									return k
+								}
+								if o == acc {
+									return "value"
+								}
+							case *ast.IndexExpr:
+								if isObj(x.X, branch) && isObj(x.Index, iv) {
+									return "sibling"
+								}
+							case *ast.CallExpr:
+								if isConversion(info, x) && len(x.Args) == 1 {
+									return kind(x.Args[0])
+								}
+							}
 							return "?"
 						}
-						as, ok := blk.List[0].(*ast.AssignStmt)
-						if !ok || len(as.Lhs) != 1 || len(as.Rhs) != 1 || !isObj(as.Lhs[0], acc) {
-							return "?"
-						}
-						ldefs := singleDefs(info, fd.Body)
-						kind := func(e ast.Expr) string {
-							if se, ok := ast.Unparen(e).(*ast.SliceExpr); ok {
-								e = se.X
-							}
-							if isObj(e, acc) {
-								return "value"
-							}
-							// branch[i], or a local that names it (sibling := branch[i])
-							e = resolveLocal(info, e, ldefs, 2)
-							if ix, ok := ast.Unparen(e).(*ast.IndexExpr); ok && isObj(ix.X, branch) && isObj(ix.Index, iv) {
-								return "sibling"
-							}
-							return "?"
-						}
-						// the two halves handed to the hash: append(a, b...) or a two-argument helper of the package
-						var app *ast.CallExpr
-						ast.Inspect(as.Rhs[0], func(k ast.Node) bool {
-							if cl, ok := k.(*ast.CallExpr); ok && len(cl.Args) == 2 && app == nil {
-								if kind(cl.Args[0]) != "?" && kind(cl.Args[1]) != "?" {
-									app = cl
+						result := ""
+						var run func(list []ast.Stmt) bool
+						run = func(list []ast.Stmt) bool {
+							for _, st := range list {
+								switch x := st.(type) {
+								case *ast.AssignStmt:
+									if len(x.Lhs) != len(x.Rhs) {
+										return false
+									}
+									if len(x.Lhs) == 1 && isObj(x.Lhs[0], acc) {
+										// the hash of the two halves: append(a, b...) or a two-argument helper
+										var app *ast.CallExpr
+										ast.Inspect(x.Rhs[0], func(k ast.Node) bool {
+											if cl, ok := k.(*ast.CallExpr); ok && len(cl.Args) == 2 && app == nil {
+												if kind(cl.Args[0]) != "?" && kind(cl.Args[1]) != "?" {
+													app = cl
+												}
+											}
+											return true
+										})
+										if app == nil {
+											return false
+										}
+										result = kind(app.Args[0]) + "," + kind(app.Args[1])
+										continue
+									}
+									ks := make([]string, len(x.Rhs))
+									for i, r := range x.Rhs {
+										ks[i] = kind(r)
+									}
+									for i, l := range x.Lhs {
+										id, ok := ast.Unparen(l).(*ast.Ident)
+										if !ok {
+											return false
+										}
+										if o := info.ObjectOf(id); o != nil {
+											env[o] = ks[i]
+										}
+									}
+								case *ast.IfStmt:
+									if x != is {
+										return false
+									}
+									if assume {
+										if !run(x.Body.List) {
+											return false
+										}
+									} else if x.Else != nil {
+										eb, ok := x.Else.(*ast.BlockStmt)
+										if !ok || !run(eb.List) {
+											return false
+										}
+									}
+								case *ast.DeclStmt, *ast.EmptyStmt:
+								default:
+									return false
 								}
 							}
 							return true
-						})
-						if app == nil {
+						}
+						if !run(loop.Body.List) || result == "" {
 							return "?"
 						}
-						return kind(app.Args[0]) + "," + kind(app.Args[1])
+						return result
 					}
-					a, b := order(is.Body), order(is.Else)
+					a, b := order(true), order(false)
 					switch {
 					case strings.Contains(a+b, "?"):
 						unread = append(unread, "what is hashed on the two sides is not written as the node and the branch element of this level")
@@ -487,34 +571,83 @@ func ruleNumericHelpers(c *Ctx) {
 			c.bad("VerifyMerkleBranch.fold", fd.Pos(), "VerifyMerkleBranch: %s", strings.Join(probs, "; "))
 		}
 	}
-	// ---- overflow tests: the helper refuses (error) on the spec's side of the boundary
+	// ---- overflow tests: the helper refuses (error) on the spec's side of the boundary. The guarded quantity is
+	// identified by the parameter it is (by position, whatever its name), the other side by nothing: what the limit is
+	// is formula.spec's business.
 	for _, w := range []struct {
 		pkg, fn, guard string
-		p              Poly
+		param          int  // index of the parameter the guard tests; -1: the wrap test below
+		p              Poly // param == -1: the reviewed polynomial
 		rop            token.Token
 		what           string
 	}{
-		{"eth2/beacon/common", "Spec.TimeAtSlot", "slot >= max", polyAdd(polyAtom("slot"), polyAtom("max"), -1), token.GEQ, "slot*SECONDS_PER_SLOT + genesis_time"},
-		{"eth2/beacon/common", "Spec.EpochStartSlot", "e != SlotToEpoch(out)", polyAdd(polyAtom("e"), polyAtom("SlotToEpoch(out)"), -1), token.NEQ, "epoch*SLOTS_PER_EPOCH"},
-		{"eth2/gossipval", "CheckSlotSpan", "slot+span < slot", polyAtom("span"), token.LSS, "slot+span"},
+		{"eth2/beacon/common", "Spec.TimeAtSlot", "slot >= max", 0, nil, token.GEQ, "slot*SECONDS_PER_SLOT + genesis_time"},
+		{"eth2/beacon/common", "Spec.EpochStartSlot", "e != SlotToEpoch(out)", 0, nil, token.NEQ, "epoch*SLOTS_PER_EPOCH"},
+		{"eth2/gossipval", "CheckSlotSpan", "slot+span < slot", -1, polyAtom("span"), token.LSS, "slot+span"},
 	} {
 		pkg, fd := c.P.mustFunc(w.pkg, w.fn)
 		key := strings.TrimPrefix(w.fn, "Spec.") + ".overflow-guard"
-		wantCut, wantSide := canonCut(w.p, w.rop), cutSide(w.p, w.rop)
 		var found *cmpSite
 		refuses := false
 		sites := cmpsIn(pkg, fd, w.fn, nil, nil, nil, nil)
-		for i := range sites {
-			s := &sites[i]
-			for _, q := range []Poly{s.p, s.pr} {
-				if canonCut(q, s.op) != wantCut {
-					continue
+		if w.param >= 0 {
+			// the parameter's name today
+			var pname string
+			k := 0
+			for _, f := range fd.Type.Params.List {
+				for _, nm := range f.Names {
+					if k == w.param {
+						pname = nm.Name
+					}
+					k++
 				}
-				if found == nil {
-					found = s
+			}
+			if pname == "" {
+				c.unm(key, fd.Pos(), "%s has no named parameter #%d any more", w.fn, w.param)
+				continue
+			}
+			for i := range sites {
+				s := &sites[i]
+				for _, q := range []Poly{s.p, s.pr} {
+					cf, has := q[pname]
+					if !has || (cf != 1 && cf != -1) {
+						continue
+					}
+					op, rop := s.op, s.rop
+					kc := q[""]
+					if cf < 0 {
+						op, rop, kc = flipOp[op], flipOp[rop], -kc
+					}
+					// q' = param - other + kc, tested `q' op 0`, refusing on `q' rop 0`
+					isEq := op == token.EQL || op == token.NEQ
+					if (w.rop == token.NEQ) != isEq {
+						continue
+					}
+					if found == nil {
+						found = s
+					}
+					switch {
+					case w.rop == token.NEQ && rop == token.NEQ && kc == 0:
+						found, refuses = s, true
+					case w.rop == token.GEQ && ((rop == token.GEQ && kc == 0) || (rop == token.GTR && kc == 1)):
+						found, refuses = s, true
+					}
 				}
-				if s.rop != 0 && cutSide(q, s.rop) == wantSide {
-					found, refuses = s, true
+			}
+		} else {
+			wantCut, wantSide := canonCut(w.p, w.rop), cutSide(w.p, w.rop)
+			for i := range sites {
+				s := &sites[i]
+				for _, q := range []Poly{s.p, s.pr} {
+					if canonCut(q, s.op) != wantCut {
+						continue
+					}
+					if found == nil {
+						found = s
+					}
+					if s.rop != 0 && cutSide(q, s.rop) == wantSide {
+						found, refuses = s, true
+					}
 				}
 			}
 		}
